@@ -53,6 +53,8 @@ func maskCol(rng *gen.Rand, name string, typed bool) proxyrig.ColSpec {
 	c := proxyrig.ColSpec{Name: name, Kind: "mask", Envelope: []string{"acrablock", "acrastruct"}[rng.Intn(2)], AppType: fakepg.Bytea, StoreType: fakepg.Bytea,
 		MaskPat: patterns[rng.Intn(len(patterns))], MaskLen: rng.Intn(8), MaskSide: []string{"left", "right"}[rng.Intn(2)]}
 	if typed {
+		// Acra's configuration validation accepts a data type on a masked column only with the AcraBlock envelope
+		c.Envelope = "acrablock"
 		if rng.Intn(2) == 0 {
 			c.DataType, c.AppType = "str", fakepg.Text
 		} else {
